@@ -79,10 +79,41 @@ def o141(ctx):
             ctx.finding(q, ev.node, "the documented default spline order (3) must reach affine_transform", ev.node, m)
 
 
+def o142_list(ctx, q, m, fn):
+    """the other input form: one template per particle (a list).  The i-th template goes with the i-th particle's orientation, through rotate
+    with transpose_rotation=True, exactly as in the single-template form"""
+    it = Interp(ctx.prog, summaries=SUMM, no_inline=("cryomap.rotate", "cryomap.get_start_end_indices", "cryomap.read"),
+                assume=assume_map({"not isinstance(input_object, list)": False, "isinstance(input_object, list)": True,
+                                   "volume is not None": False, "volume_shape is not None": True}))
+    motl = motl_obj(ctx.prog)
+    tpls = Unk(sym("templates"))
+    it.run(q, [tpls, motl], {"volume_shape": Arr([sym("V0"), sym("V1"), sym("V2")], 1), "feature_to_color": P("feature")})
+    rots = [e for e in it.events if e.kind == "call" and e.name == "cryocat.cryomap.rotate"]
+    if len(rots) != 1:
+        raise Unsupported("place_object (list of templates): rotate call not recognised", fn)
+    ev = rots[0]
+    tr = ev.kwargs.get("transpose_rotation")
+    ctx.count(1, {"list form, rotate call": {k: tm.show(to_term(v))[:80] for k, v in ev.kwargs.items()}})
+    if tr is None or not (is_pyconst(tr) and pyval(tr) is True):
+        ctx.finding(q, ev.node, "with a list of templates place_object must call rotate with transpose_rotation=True as well: otherwise every template "
+                    "is stamped in the inverse of its particle's orientation", ev.node, m)
+    rot = ev.kwargs.get("rotation")
+    rt = to_term(rot) if rot is not None else const(None)
+    src_ = ev.arg(0) if ev.arg(0) is not None else ev.kwargs.get("input_map")
+    st_ = to_term(src_) if src_ is not None else const(None)
+    ri = {n.key() for n in tm.walk(rt) if n.op == "call" and n.args[0] == "enum_index"}
+    ti = {n.key() for n in tm.walk(st_) if n.op == "call" and n.args[0] == "enum_index"}
+    ctx.count(1)
+    if not tm.contains(rt, lambda n: n == particle_R()) or not tm.has_sym(st_, "templates") or not ri or ri != ti:
+        ctx.finding(q, ev.node, "with a list of templates the i-th template must be rotated by the i-th particle's orientation", ev.node, m,
+                    template=tm.show(st_)[:100], rotation=tm.show(rt)[:100])
+
+
 def o142(ctx):
     q = CM + "place_object"
     m, fn = ctx.prog.func(q)
     ctx.touched(q)
+    o142_list(ctx, q, m, fn)
     it = Interp(ctx.prog, summaries=SUMM, no_inline=("cryomap.rotate", "cryomap.get_start_end_indices"),
                 assume=assume_map({"not isinstance(input_object, list)": True, "isinstance(input_object, list)": False,
                                    "volume is not None": False, "volume_shape is not None": True}))
